@@ -150,7 +150,7 @@ PROPS = {
         vfiles=["Props/C15"], tie_extra=["Generated/TieBroadcast"],
         technique="Coq proof: handle_packet characterised as a filter-map over the key-sorted registry (induction on the table), tick by case analysis on the link answer; correspondence on operation histories with logging handlers, the table being rebuilt from the ids the implementation returned",
         level_text="Theorems C15_tick (one get; packet delivered unmodified, once, in key order, to every handler if own/broadcast else to the capture-all handlers only; handlers' transmissions reach the link in order; "
-                   "'nothing received' = Ok without calls; any other link error returned without calls; a handler's own-addressed sends are delivered, nested, once to every handler), C15_quiet, C15_selection, C15_handler_sends; for every table, own address (incl. 0xffff) and link answer.",
+                   "'nothing received' = Ok without calls; any other link error returned without calls; a handler's own-addressed sends are delivered, nested, once to every handler), C15_quiet, C15_selection, C15_handler_sends; for every table, own address (incl. 0xffff) and link answer. C15_checker_accepts_model: the extracted checker provably accepts the model's observations.",
         level_note=NOTE_COMMON + " Handler closures are modelled as scripts (label, capture flag, packets they send when invoked by a top-level dispatch; a send to the own address re-enters the dispatcher, one level deep); handlers that mutate the registry while being dispatched are outside the model.",
         streams=[dict(PRO, view="view_C15", ok="ok_C15")],
         rule=RULE_PRO,
@@ -159,7 +159,7 @@ PROPS = {
         vfiles=["Props/C16"], tie_extra=["Generated/TieBroadcast"],
         technique="Coq proof by case analysis on destination vs own address vs broadcast over the model of send_packet, using the handle_packet characterisation; correspondence on operation histories",
         level_text="Theorems C16_send (own address: every local handler once, not on the link, Ok; own = broadcast address: also transmitted and the link answer returned; other destination: transmitted once, "
-                   "unmodified, no handler, link answer returned), C16_every_handler_once, C16_nested (the same rule for sends made by a handler from inside a dispatch) and C16_transmit.",
+                   "unmodified, no handler, link answer returned), C16_every_handler_once, C16_nested (the same rule for sends made by a handler from inside a dispatch) and C16_transmit. C16_checker_accepts_model: the extracted checker provably accepts the model's observations.",
         level_note=NOTE_COMMON,
         streams=[dict(PRO, view="view_C16", ok="ok_C16")],
         rule=RULE_PRO,
@@ -168,7 +168,7 @@ PROPS = {
         vfiles=["Props/C17"],
         technique="Coq proof: registry as key-sorted association list refining a finite set; get_next_handler_id returns the least free id (induction over the sorted keys), insert/remove change exactly one key and leave all other lookups unchanged; sortedness is an invariant of every history; correspondence on register/remove/deliver histories",
         level_text="Theorems C17_step (register: returned id is not registered - the least free one -, all other handlers unchanged; remove: exactly that handler goes, others unchanged; unknown id: 'no such handler', nothing changes), "
-                   "C17_history (the invariant holds after every finite history), C17_only_live_invoked (a removed handler is never invoked).",
+                   "C17_history (the invariant holds after every finite history), C17_only_live_invoked (a removed handler is never invoked). C17_checker_accepts_model: the extracted checker provably accepts the model's observations.",
         level_note=NOTE_COMMON + " BTreeMap is modelled as a key-sorted association list; the u32 id counter cannot overflow with fewer than 2^32 live handlers.",
         streams=[dict(PRO, view="view_C17", ok="ok_C17")],
         rule=RULE_PRO,
@@ -177,7 +177,7 @@ PROPS = {
         vfiles=["Props/C18"],
         technique="Coq proof by induction over the queue of incoming results (non-matching prefix skipped, first match / first 'nothing received' / first error decides), composed with the send_packet model; correspondence with an independently written queue scan as checker",
         level_text="Theorems C18_routing (request routed like a send; a send error returns before the wait callback), C18_single (first matching packet in arrival order, nothing after it consumed; dry link = timeout; "
-                   "link error propagated), C18_multi (all matches in order, link drained), for all 16 kinds and both capture modes.",
+                   "link error propagated), C18_multi (all matches in order, link drained), for all 16 kinds and both capture modes. C18_checker_accepts_model: the extracted checker provably accepts the model's observations.",
         level_note=NOTE_COMMON,
         streams=[dict(EXC, view="view_C18", ok="ok_C18")],
         rule=RULE_EXC,
